@@ -8,7 +8,9 @@ From RV Require Import Base.Str Base.PathLex.
 
 Inductive errkind :=
   | EItemNotFound | EParentNotFound | EExtensionNotFound | EEmpty | EInvalidExpansion
-  | EMultipleHomeSymbols | EVarNotPresent | EOther.
+  | EMultipleHomeSymbols | EVarNotPresent | EOther
+  | EDoesNotExist | EIsNotDir | EIsNotFile | EIsNotSymlink | EDirContainsFiles | EExistsAlready
+  | ELinkLooping | EInvalidData | EChmodSym.
 Definition res (A : Type) := (A + errkind)%type.
 Definition Ok {A} (a : A) : res A := inl a.
 Definition Err {A} (e : errkind) : res A := inr e.
